@@ -40,6 +40,18 @@ class _BadDump:
         raise ValueError("cannot serialise")
 
 
+class _DumpOnlyDict:
+    """dump-only object whose dump is given (falsy but present members: id 0, empty result / params)"""
+
+    def __init__(self, d):
+        self.d = d
+        self.method = d.get("method")
+        self.id = d.get("id")
+
+    def model_dump(self, **kw):
+        return dict(self.d)
+
+
 class _DumpOnly:
     """has model_dump but no model_dump_json (the slow path of the writer)"""
 
@@ -54,7 +66,7 @@ class _DumpOnly:
 
 
 PRETTY = '{\n  "jsonrpc": "2.0",\n  "method": "pre/serialised",\r\n  "params": {"k": [1,\n 2]}\n}'
-K_REQ, K_NOTIF, K_DICT, K_RAW_COMPACT, K_RAW_PRETTY, K_UNSER_SET, K_NODUMP, K_BADDUMP, K_DUMPONLY, K_RESP = range(10)
+K_REQ, K_NOTIF, K_DICT, K_RAW_COMPACT, K_RAW_PRETTY, K_UNSER_SET, K_NODUMP, K_BADDUMP, K_DUMPONLY, K_RESP, K_FALSY_TYPED, K_FALSY_DICT, K_FALSY_DUMPONLY = range(13)
 
 
 def item(kind, pos, s):
@@ -88,6 +100,20 @@ def item(kind, pos, s):
     if kind == K_RESP:
         m = JM.create_error_response(pos, -32000, s, {"s": s})
         return m, {"jsonrpc": "2.0", "id": pos, "error": {"code": -32000, "message": s, "data": {"s": s}}}
+    if kind in (K_FALSY_TYPED, K_FALSY_DICT, K_FALSY_DUMPONLY):
+        # members that are present but falsy must survive: id 0, empty result, empty params, empty string, false
+        variants = [
+            {"jsonrpc": "2.0", "id": 0, "result": {}},
+            {"jsonrpc": "2.0", "id": 0, "method": "m", "params": {}},
+            {"jsonrpc": "2.0", "method": "notifications/x", "params": {"f": False, "z": 0, "e": "", "l": []}},
+            {"jsonrpc": "2.0", "id": "", "result": {"s": s}},
+        ]
+        d = variants[(pos + len(s)) % 4] if kind != K_FALSY_TYPED else variants[(pos + len(s)) % 3]
+        if kind == K_FALSY_TYPED:
+            return JM.JSONRPCMessage(**d), d
+        if kind == K_FALSY_DICT:
+            return dict(d), d
+        return _DumpOnlyDict(d), d
     raise HarnessError("kind")
 
 
